@@ -458,6 +458,9 @@ def rule_whole_slice(ctx):
                 elif x.origin[0] == "method" and x.origin[2] in ("chunk",):
                     one = x
                     break
+                if recv is not None and any(isinstance(y, Sym) and y.origin and y.origin[0] == "method" and y.origin[2] == "combine_chunks"
+                                            for y in _prov_nodes(recv)):
+                    continue  # after combine_chunks() the table is one chunk: its only batch is the whole slice
                 if recv is not None and any(isinstance(y, Sym) and y.origin and ((y.origin[0] == "method" and y.origin[2] in ("to_batches", "iterchunks", "to_reader"))
                                                                                  or (y.origin[0] == "attr" and y.origin[-1] == "chunks")
                                                                                  or tagof(y).endswith(".chunks")) for y in _prov_nodes(recv)):
